@@ -7,6 +7,7 @@ import (
 	"mime"
 	"net/mail"
 	"regexp"
+	"sort"
 	"strings"
 	"unicode/utf8"
 
@@ -319,6 +320,164 @@ func runCase(r *hx.Run, c hx.Case) {
 	}
 }
 
+
+// ---- kind "setters": a sequence of setter calls on a new Msg; the observable is the stored generic header map ----
+
+var setterKeys = []string{"Subject", "X-Custom", "Organization", "User-Agent", "X-Mailer", "Message-ID", "Precedence", "X-Priority",
+	"Comments", "Keywords", "Importance"}
+
+var importances = map[string]gomail.Importance{"low": gomail.ImportanceLow, "high": gomail.ImportanceHigh,
+	"nonurgent": gomail.ImportanceNonUrgent, "urgent": gomail.ImportanceUrgent, "normal": gomail.ImportanceNormal}
+
+func runSetters(r *hx.Run, c hx.Case) {
+	if len(c.Args) < 2 {
+		r.Fail(c.ID, "bad-replay", "setters case needs 2 arguments")
+		return
+	}
+	m := gomail.NewMsg()
+	if c.Args[0] == "b" {
+		m = gomail.NewMsg(gomail.WithEncoding(gomail.EncodingB64))
+	}
+	asked := map[string][]string{} // the harness' own bookkeeping of what the calls asked for (raw strings)
+	set := func(k string, vs ...string) { asked[k] = vs }
+	for _, op := range strings.Split(c.Args[1], "/") {
+		if op == "" {
+			continue
+		}
+		body := op[1:]
+		switch op[0] {
+		case 'g':
+			kv := strings.SplitN(body, "=", 2)
+			if len(kv) != 2 {
+				r.Fail(c.ID, "bad-replay", "bad g op")
+				return
+			}
+			key := string(hx.UnHex(kv[0]))
+			var vals []string
+			for _, b := range hx.UnHexList(kv[1]) {
+				vals = append(vals, string(b))
+			}
+			raw := append([]string(nil), vals...)
+			m.SetGenHeader(gomail.Header(key), vals...)
+			set(key, raw...)
+		case 's':
+			v := string(hx.UnHex(body))
+			m.Subject(v)
+			set("Subject", v)
+		case 'o':
+			v := string(hx.UnHex(body))
+			m.SetOrganization(v)
+			set("Organization", v)
+		case 'u':
+			v := string(hx.UnHex(body))
+			m.SetUserAgent(v)
+			set("User-Agent", v)
+			set("X-Mailer", v)
+		case 'm':
+			v := string(hx.UnHex(body))
+			m.SetMessageIDWithValue(v)
+			set("Message-ID", "<"+v+">")
+		case 'b':
+			m.SetBulk()
+			set("Precedence", "bulk")
+			set("X-Auto-Response-Suppress", "All")
+		case 'i':
+			imp, ok := importances[body]
+			if !ok {
+				r.Fail(c.ID, "bad-replay", "bad importance")
+				return
+			}
+			m.SetImportance(imp)
+			if imp != gomail.ImportanceNormal {
+				set("Importance", imp.String())
+				set("Priority", imp.NumString())
+				set("X-Priority", imp.XPrioString())
+				set("X-MSMail-Priority", imp.NumString())
+			}
+		case 'r':
+			m.Reset()
+			asked = map[string][]string{}
+		default:
+			r.Fail(c.ID, "bad-replay", "bad setter op")
+			return
+		}
+	}
+	var items []string
+	for _, k := range append(append([]string(nil), setterKeys...), "X-Auto-Response-Suppress", "Priority", "X-MSMail-Priority") {
+		vs := m.GetGenHeader(gomail.Header(k))
+		if len(vs) == 0 {
+			if len(asked[k]) != 0 {
+				r.Fail(c.ID, "setters-value-lost", fmt.Sprintf("header %s has no stored value, asked %q", k, asked[k]))
+			}
+			continue
+		}
+		hs := make([]string, len(vs))
+		for i, v := range vs {
+			hs[i] = hx.Hex([]byte(v))
+			// direct oracle: what is stored is printable, and decodes (standard library decoder) to what was asked
+			if !isPrintableASCII(v) {
+				r.Fail(c.ID, "setters-stored-not-printable", fmt.Sprintf("header %s stores %q", k, v))
+			}
+			if i < len(asked[k]) {
+				raw := asked[k][i]
+				if utf8.ValidString(raw) && !strings.Contains(raw, "=?") {
+					got, derr := dec.DecodeHeader(v)
+					if derr != nil || got != raw {
+						r.Fail(c.ID, "setters-value-not-preserved", fmt.Sprintf("header %s: stored %q decodes to %q, asked %q (err %v)", k, v, got, raw, derr))
+					}
+				}
+			}
+		}
+		if len(vs) != len(asked[k]) {
+			r.Fail(c.ID, "setters-value-count", fmt.Sprintf("header %s stores %d values, asked %d", k, len(vs), len(asked[k])))
+		}
+		items = append(items, hx.Hex([]byte(k))+"="+strings.Join(hs, ","))
+	}
+	sort.Strings(items)
+	obs := "-"
+	if len(items) > 0 {
+		obs = strings.Join(items, ";")
+	}
+	r.Add(c, obs, true)
+}
+
+func genSetters(r *hx.Run, vs [][]byte) hx.Case {
+	pick := func() []byte { return vs[r.Rng.Intn(len(vs))] }
+	n := 1 + r.Rng.Intn(8)
+	ops := make([]string, 0, n)
+	for i := 0; i < n; i++ {
+		switch r.Rng.Intn(12) {
+		case 0, 1, 2:
+			k := setterKeys[r.Rng.Intn(len(setterKeys))]
+			nv := r.Rng.Intn(4)
+			l := make([][]byte, nv)
+			for j := range l {
+				l[j] = pick()
+			}
+			ops = append(ops, "g"+hx.Hex([]byte(k))+"="+hx.HexList(l))
+		case 3, 4:
+			ops = append(ops, "s"+hx.Hex(pick()))
+		case 5:
+			ops = append(ops, "o"+hx.Hex(pick()))
+		case 6:
+			ops = append(ops, "u"+hx.Hex(pick()))
+		case 7:
+			ops = append(ops, "m"+hx.Hex(pick()))
+		case 8:
+			ops = append(ops, "b")
+		case 9, 10:
+			ops = append(ops, "i"+[]string{"low", "high", "nonurgent", "urgent", "normal"}[r.Rng.Intn(5)])
+		default:
+			ops = append(ops, "r")
+		}
+	}
+	e := "q"
+	if r.Rng.Intn(3) == 0 {
+		e = "b"
+	}
+	return hx.Case{ID: r.NewID(), Kind: "setters", Args: []string{e, strings.Join(ops, "/")}}
+}
+
 func values(r *hx.Run, thorough bool) [][]byte {
 	var vs [][]byte
 	for b := 0; b < 256; b++ {
@@ -373,6 +532,10 @@ func values(r *hx.Run, thorough bool) [][]byte {
 func Run(r *hx.Run, replay []hx.Case) {
 	if replay != nil {
 		for _, c := range replay {
+			if c.Kind == "setters" {
+				runSetters(r, c)
+				continue
+			}
 			if c.Kind == "render" && len(c.Args) >= 5 {
 				c = hx.Case{ID: c.ID, Kind: "hv", Args: c.Args[2:5]}
 			}
@@ -386,6 +549,13 @@ func Run(r *hx.Run, replay []hx.Case) {
 	}
 	thorough := r.Tier == "thorough"
 	vs := values(r, thorough)
+	nseq := 300
+	if thorough {
+		nseq = 6000
+	}
+	for i := 0; i < nseq && !r.Expired(); i++ {
+		runSetters(r, genSetters(r, vs))
+	}
 	for vi, v := range vs {
 		if r.Expired() {
 			break
